@@ -13,6 +13,7 @@ import Tranp.Lemmas.BlockTotal
 import Tranp.Lemmas.BlockLast
 import Tranp.Lemmas.BlockMulti
 import Tranp.Lemmas.BlockView
+import Tranp.Lemmas.BlockDecoTotal
 import Tranp.Generated.BlockCallSites
 
 namespace Tranp.C18
@@ -567,12 +568,22 @@ example : breakIndexer ['m', '[', 'i', ']', '[', 'i', ']'] = .ok (['m', '[', 'i'
 
 /-! ## `DecoratorHelper.any` / `DecoratorQuery.any`, `contains` -/
 
+/-- `DecoratorHelper._parse` answers on EVERY text — balanced or not, with or without `(`: neither `break_separator` nor the two
+    `str.index` calls that cut a labelled argument can raise (the first piece of `break_separator(arg, '=')` is a stripped
+    slice of `arg` ending in front of a `=`), and no fuel runs out. So `path`, `args`, `join_args` and the queries below are
+    defined for every decorator text. -/
+theorem decorator_total (d : Str) : ∃ r, decoParse d = .ok r := decoParse_total d
+
+/-- an unbalanced text: `f(k =(=` -/
+example : decoParse ['f', '(', 'k', ' ', '=', '(', '='] = .ok (['f'], [(['k', ' '], ['('])], ['k', ' ', '=', '(']) := by
+  decide
+
 /-- `DecoratorQuery.any(*paths)` keeps exactly the decorators whose path — the text in front of the first `(` — is one of
-    `paths`, in order, and `contains(*paths)` says whether there is one; whenever every decorator parses. -/
-theorem query_any (ds paths : List Str) (h : ∀ d ∈ ds, ∃ r, decoParse d = .ok r) :
+    `paths`, in order, and `contains(*paths)` says whether there is one; for every list of decorator texts. -/
+theorem query_any (ds paths : List Str) :
     queryAny ds paths = .ok (ds.filter fun d => paths.contains (pathOf d)) ∧
     queryContains ds paths = .ok (ds.any fun d => paths.contains (pathOf d)) :=
-  queryAny_filter ds paths h
+  queryAny_filter ds paths (fun d _ => decoParse_total d)
 
 example : queryAny [['a', '(', 'x', ')'], ['b'], ['a']] [['a']] = .ok [['a', '(', 'x', ')'], ['a']] ∧
     queryContains [['b'], ['a', '(', ')']] [['a']] = .ok true := by decide
@@ -624,12 +635,12 @@ theorem sep_multichar_rejoin_counterexample : ¬ sep_multichar_rejoin_statement 
 /-! ## `DecoratorQuery.any_args` (the production use: `deco_ignore.any_args(inherit)` in class/_inherits.j2) -/
 
 /-- `DecoratorQuery.any_args(subject)` keeps exactly the decorators whose argument text — everything between the first `(`
-    and the last character — contains `subject`, in order; whenever every decorator parses. For `path(args)` that text is
+    and the last character — contains `subject`, in order, for every list of decorator texts. For `path(args)` that text is
     `args` (`joinArgsOf_call`). -/
-theorem query_any_args (ds : List Str) (subject : Str) (h : ∀ d ∈ ds, ∃ r, decoParse d = .ok r) :
+theorem query_any_args (ds : List Str) (subject : Str) :
     queryAnyArgs ds subject = .ok (ds.filter fun d => (Str.find (joinArgsOf d) subject).isSome) ∧
     ∀ (path args : Str), (∀ x ∈ path, x ≠ '(') → joinArgsOf (path ++ '(' :: (args ++ [')'])) = args :=
-  ⟨queryAnyArgs_filter ds subject h, joinArgsOf_call⟩
+  ⟨queryAnyArgs_filter ds subject (fun d _ => decoParse_total d), joinArgsOf_call⟩
 
 example : queryAnyArgs [['a', '(', 'x', ',', 'B', ')'], ['b'], ['c', '(', 'B', ')']] ['B'] = .ok [['a', '(', 'x', ',', 'B', ')'], ['c', '(', 'B', ')']] := by
   decide
@@ -681,5 +692,27 @@ example :
     varTypeOrigin (['m', 'a', 'p'] ++ (['<', 'i', 'n', 't', '>'] ++ [])) = .ok ['m', 'a', 'p'] ∧
     varTypeOrigin ['i', 'n', 't', '*'] = .ok ['i', 'n', 't'] ∧ varTypeOrigin ['*'] = .error .TypeError := by
   refine ⟨⟨Or.inl rfl, Or.inr (Or.inr rfl)⟩, ⟨Or.inr ⟨_, rfl⟩, Or.inl rfl⟩, ?_, ?_, ?_, ?_⟩ <;> decide
+
+/-- The whole way for a C++ parameter: the text `[const ]base[<…>][*|&] name = default` is taken apart by `Param.parse` into
+    type, name and default (every default fragment), and `var_type_origin` of that type is the base name — for every base
+    name over `[A-Za-z0-9_:]`, every template-argument fragment, every parameter-name token. -/
+theorem param_origin (cst : Bool) (base : Str) (targs : Option Frag) (ptr : Option Char) (nm df : Frag) (hb : base ≠ [])
+    (hW : ∀ c ∈ base, isNameChar c = true) (hi : ∀ i, targs = some i → Frag.Simple i)
+    (hp : ∀ c, ptr = some c → c = '*' ∨ c = '&') (hn : ParamToken nm) (hd : Frag.Simple df) :
+    ∃ ty, paramParse ((Frag.join ' ' ((if cst then [constTok] else []) ++ [tyTok base targs ptr] ++ [nm])).render
+        ++ ' ' :: '=' :: ' ' :: df.render) = .ok (ty, nm.render, strip df.render) ∧
+      varTypeOrigin ty = .ok base :=
+  Block.param_origin cst base targs ptr nm df hb hW hi hp hn hd
+
+/-- non-vacuity: `const m<a, b>& n = {1}` -/
+example :
+    let i : Frag := .atom 'a' (.atom ',' (.atom ' ' (.atom 'b' .nil)))
+    let nm : Frag := .atom 'n' .nil
+    let df : Frag := .group .cur (.atom '1' .nil) .nil
+    ParamToken nm ∧ Frag.Simple i ∧ Frag.Simple df ∧
+      paramParse ((Frag.join ' ' ([constTok] ++ [tyTok ['m'] (some i) (some '&')] ++ [nm])).render ++ ' ' :: '=' :: ' ' :: df.render)
+        = .ok (['c', 'o', 'n', 's', 't', ' ', 'm', '<', 'a', ',', ' ', 'b', '>', '&'], ['n'], ['{', '1', '}']) ∧
+      varTypeOrigin ['c', 'o', 'n', 's', 't', ' ', 'm', '<', 'a', ',', ' ', 'b', '>', '&'] = .ok ['m'] := by
+  decide
 
 end Tranp.C18
